@@ -24,6 +24,10 @@ type FnInfo struct {
 	fn     *ssa.Function
 	slots  map[ssa.Value]int
 	nslots int
+	pdOnce  sync.Once
+	ipd     []int
+	mergeOK map[int]bool
+	mergeMu sync.Mutex
 }
 
 // Program is a loaded, SSA-built view of /repo plus harness overlay.
@@ -157,7 +161,7 @@ func (p *Program) info(fn *ssa.Function) *FnInfo {
 	if v, ok := p.fns.Load(fn); ok {
 		return v.(*FnInfo)
 	}
-	fi := &FnInfo{fn: fn, slots: map[ssa.Value]int{}}
+	fi := &FnInfo{fn: fn, slots: map[ssa.Value]int{}, mergeOK: map[int]bool{}}
 	n := 0
 	for _, v := range fn.Params {
 		fi.slots[v] = n
